@@ -358,25 +358,25 @@ entry `i` is the file offset of the header of block `i` (the file size before th
 `0..i-1` occupy), `*start` is the offset directly behind the last block, the blocks unpack to the table and all
 but the last hold exactly 8192 bytes (so table entry `k` of size `e | 8192` is in block `k*e / 8192`).
 -/
-theorem writeTable_spec (cmp : Codec) (base : Nat) (data : Bytes) :
-    (writeTable cmp base data).locs.length = (writeTable cmp base data).blocks.length ∧
-    (writeTable cmp base data).blocks.length = (data.length + 8191) / 8192 ∧
-    (∀ i, i < (writeTable cmp base data).locs.length →
-      (writeTable cmp base data).locs[i]? = some (base + outBytes ((writeTable cmp base data).blocks.take i))) ∧
-    (writeTable cmp base data).start = base + outBytes (writeTable cmp base data).blocks ∧
-    (((writeTable cmp base data).blocks.map (·.raw)).flatten = data) ∧
-    (∀ i, i + 1 < (writeTable cmp base data).blocks.length →
-      ((writeTable cmp base data).blocks[i]?.map (·.raw.length)) = some 8192) := by
+theorem writeTableM_spec (cmp : Codec) (base : Nat) (data : Bytes) :
+    (writeTableM cmp base data).locs.length = (writeTableM cmp base data).blocks.length ∧
+    (writeTableM cmp base data).blocks.length = (data.length + 8191) / 8192 ∧
+    (∀ i, i < (writeTableM cmp base data).locs.length →
+      (writeTableM cmp base data).locs[i]? = some (base + outBytes ((writeTableM cmp base data).blocks.take i))) ∧
+    (writeTableM cmp base data).start = base + outBytes (writeTableM cmp base data).blocks ∧
+    (((writeTableM cmp base data).blocks.map (·.raw)).flatten = data) ∧
+    (∀ i, i + 1 < (writeTableM cmp base data).blocks.length →
+      ((writeTableM cmp base data).blocks[i]?.map (·.raw.length)) = some 8192) := by
   have hcl := chunksOf_length (data.length + 1) data (by omega)
   obtain ⟨hflat, htake⟩ := chunksOf_spec (data.length + 1) data (by omega)
   obtain ⟨fb, last, s1, _, s3, s4, s5, _, s7⟩ := run_shape cmp (chunksOf (data.length + 1) data)
-  have hblocks : (writeTable cmp base data).blocks = (run cmp (chunksOf (data.length + 1) data)).out := by
-    simp only [writeTable, writeTableGo_fst]; rfl
-  have hlocs : (writeTable cmp base data).locs = (List.range (chunksOf (data.length + 1) data).length).map
+  have hblocks : (writeTableM cmp base data).blocks = (run cmp (chunksOf (data.length + 1) data)).out := by
+    simp only [writeTableM, writeTableGo_fst]; rfl
+  have hlocs : (writeTableM cmp base data).locs = (List.range (chunksOf (data.length + 1) data).length).map
       (fun i => base + outBytes (((chunksOf (data.length + 1) data).take i).foldl (append cmp) {}).out) := by
-    simp only [writeTable, writeTableGo_snd]; simp
-  have hstart : (writeTable cmp base data).start = base + outBytes (writeTable cmp base data).blocks := by
-    simp only [writeTable]
+    simp only [writeTableM, writeTableGo_snd]; simp
+  have hstart : (writeTableM cmp base data).start = base + outBytes (writeTableM cmp base data).blocks := by
+    simp only [writeTableM]
   -- number of blocks
   have hraw : ((fb ++ last).map (·.raw)).flatten.length = data.length := by rw [s7, hflat]
   have hfbl : ((fb.map (·.raw)).flatten).length = 8192 * fb.length := full_raw_length fb s3
@@ -424,5 +424,55 @@ theorem writeTable_spec (cmp : Codec) (base : Nat) (data : Bytes) :
     rw [List.getElem?_append_left hi', List.getElem?_eq_getElem hi']
     simp only [Option.map_some]
     rw [s3 _ (List.getElem_mem hi'), mb_eq]
+
+/-! ### the coarser `writeTable` is `writeTableM` at base 0 -/
+
+theorem outBytes_cons (b : Block) (bs : List Block) : outBytes (b :: bs) = b.stored.length + 2 + outBytes bs := by
+  simp [outBytes]
+
+theorem locs_foldl : ∀ (bs : List Block) (acc : List Nat) (n : Nat),
+    bs.foldl (fun (a : List Nat × Nat) b => (a.1 ++ [a.2], a.2 + 2 + b.stored.length)) (acc, n) =
+      (acc ++ (List.range bs.length).map (fun i => n + outBytes (bs.take i)), n + outBytes bs) := by
+  intro bs
+  induction bs with
+  | nil => intro acc n; simp [outBytes]
+  | cons b bs ih =>
+    intro acc n
+    simp only [List.foldl_cons]
+    rw [ih, List.length_cons, List.range_succ_eq_map]
+    refine Prod.ext ?_ ?_
+    · show acc ++ [n] ++ _ = acc ++ _
+      rw [List.append_assoc]
+      congr 1
+      simp only [List.singleton_append, List.map_cons, List.map_map, List.take_zero]
+      congr 1
+      apply List.map_congr_left
+      intro i _
+      simp only [Function.comp, List.take_succ_cons, outBytes_cons]
+      omega
+    · simp only [outBytes_cons]; omega
+
+/-- the first model of `sqfs_write_table` (locations recomputed from the block list, relative to the table) gives the
+blocks and locations of `writeTableM` for a file that is empty before the call -/
+theorem writeTable_eq_writeTableM (cmp : Codec) (data : Bytes) :
+    writeTable cmp data = ((writeTableM cmp 0 data).blocks, (writeTableM cmp 0 data).locs) := by
+  obtain ⟨h1, _, h3, _⟩ := writeTableM_spec cmp 0 data
+  have hb : (writeTableM cmp 0 data).blocks = (run cmp (chunksOf (data.length + 1) data)).out := by
+    simp only [writeTableM, writeTableGo_fst]; rfl
+  unfold writeTable
+  simp only
+  rw [locs_foldl]
+  refine Prod.ext hb.symm ?_
+  simp only [List.nil_append, Nat.zero_add]
+  apply List.ext_getElem?
+  intro i
+  by_cases hi : i < (writeTableM cmp 0 data).locs.length
+  · rw [h3 i hi, Nat.zero_add, hb]
+    rw [h1, hb] at hi
+    rw [List.getElem?_map, List.getElem?_range hi]
+    rfl
+  · have hi' : (run cmp (chunksOf (data.length + 1) data)).out.length ≤ i := by rw [h1, hb] at hi; omega
+    rw [List.getElem?_eq_none (by rw [List.length_map, List.length_range]; exact hi'),
+      List.getElem?_eq_none (by rw [h1, hb]; exact hi')]
 
 end Sqfs.MetaWriter
